@@ -146,7 +146,7 @@ func genC06(rt *rapid.T) Case {
 	o := GenOpts{Actor: true, Twins: true, ByView: true, MaxSteps: 140}
 	cfg := GenConfig(rt, o)
 	cfg.ActorReuseCmds = len(cfg.Actors) > 0 && rapid.IntRange(0, 3).Draw(rt, "reuse") != 0
-	return Case{Cfg: cfg, Steps: GenSteps(rt, cfg, o)}
+	return Case{Cfg: cfg, Steps: GenSchedule(rt, cfg, o)}
 }
 
 func TestC06Execution(t *testing.T) {
